@@ -261,7 +261,7 @@ PROPS["C20"] = {
               "streamname": ["is_valid"],
               "poolcap": ["ValueRef::create"],
               "mktable": ["Package::create_table_with_name", "Column::is_storable", "Column::is_primary_key", "Column::name"]},
-    "probes": {"ValueRef::create": ["poolcap"], "Table::write_rows": ["rowlimit"]},
+    "probes": {"ValueRef::create": ["poolcap"], "Table::write_rows": ["rowlimit"], "Package::create_table_with_name": ["longname"]},
     "slow_probes": True,
     "assumptions": [
         "decided, limit by limit, on the functions that enforce (or must enforce) it: ROWS -- Table::read_rows accepts exactly the streams of at most 65536 rows and Table::write_rows returns Ok only for at most 65536 rows (symmetric since fix 'row limit'); STRING REFERENCES -- StringRef::write refuses a reference above 16 bits in two-byte mode (error, not truncation) and StringRef::read accepts every two- or three-byte reference; COLUMN WIDTH -- kani:typeword_roundtrip: exactly the widths above 255 are refused by is_storable; STREAM NAMES -- streamname::is_valid == the statement's `accepted` (31 UTF-16 units after encoding)",
